@@ -3,7 +3,7 @@
 // usage: c10x <scenario-file>
 //   copy <id> <plat 2|3>
 //   actor <i> <op>...          actor i runs on host h<i> of the copy. ops: E | S | P<j> | G<j> | R<j>  (see lib/c10ref.py)
-//   fault <resource> <date> api|profile      resource h0 h1 h2 l01 l12 l02 of this copy; api: an injector actor living on the
+//   fault <resource> <date> api|profile      resource h0 h1 h2 l01 l12 l02 of this copy; api: the injector actor living on the
 //                                            immortal host "hi" sleeps until <date> and calls turn_off(); profile: a state
 //                                            profile "<date> 0" attached to the resource when the platform is built
 //   end
@@ -16,6 +16,7 @@
 #include <simgrid/Exception.hpp>
 #include <simgrid/kernel/ProfileBuilder.hpp>
 #include <simgrid/s4u.hpp>
+#include <algorithm>
 #include <cstdio>
 #include <fstream>
 #include <map>
@@ -46,7 +47,15 @@ struct ActorLog {
   bool finished = false; // on_exit ran
 };
 static std::vector<Copy> copies;
+static std::vector<std::map<std::string, sg4::Host*>> chosts; // per copy: resource name -> object (by_name() walks every zone)
+static std::vector<std::map<std::string, sg4::Link*>> clinks;
 static std::vector<std::vector<ActorLog>> logs; // [copy][actor]
+struct ApiFault {
+  double date;
+  sg4::Host* host;
+  sg4::Link* link;
+};
+static std::vector<ApiFault> api_faults;
 static int payload;
 static bool deadlock = false;
 
@@ -77,7 +86,7 @@ static void run_actor(size_t c, int i)
           sg4::Mailbox::by_name(cp.id + ".b" + std::to_string(j) + std::to_string(i))->get<int>();
           break;
         case 'R':
-          sg4::this_actor::exec_init(2147483648.0)->set_host(sg4::Host::by_name(cp.id + ".h" + std::to_string(j)))->wait();
+          sg4::this_actor::exec_init(2147483648.0)->set_host(chosts[c].at("h" + std::to_string(j)))->wait();
           break;
         default:
           res = "badop";
@@ -127,6 +136,8 @@ int main(int argc, char** argv)
   auto* root = e.get_netzone_root();
   auto* hi   = root->add_host("hi", 1073741824.0);
   logs.resize(copies.size());
+  chosts.resize(copies.size());
+  clinks.resize(copies.size());
   auto prof = [](const std::string& name, double date) {
     char buf[64];
     snprintf(buf, sizeof buf, "%.17g 0\n", date);
@@ -139,46 +150,54 @@ int main(int argc, char** argv)
     for (auto const& ft : cp.faults)
       if (ft.method == "profile")
         pf[ft.res] = ft.date;
+    // one sub-zone per copy: the routing table of a Full zone is quadratic in its number of netpoints
+    auto* zone = root->add_netzone_full(cp.id);
     sg4::Host* h[3];
     for (int k = 0; k < 3; k++) {
       std::string r = "h" + std::to_string(k);
-      h[k]          = root->add_host(cp.id + "." + r, 1073741824.0)->set_core_count(4);
+      h[k]          = zone->add_host(cp.id + "." + r, 1073741824.0)->set_core_count(4);
       if (pf.count(r))
         h[k]->set_state_profile(prof(cp.id + r, pf[r]));
+      chosts[c][r] = h[k];
     }
     auto mklink = [&](const std::string& r) {
-      auto* l = root->add_link(cp.id + "." + r, 1048576.0)->set_latency(0.25);
+      auto* l = zone->add_link(cp.id + "." + r, 1048576.0)->set_latency(0.25);
       if (pf.count(r))
         l->set_state_profile(prof(cp.id + r, pf[r]));
+      clinks[c][r] = l;
       return l;
     };
     auto* l01 = mklink("l01");
     auto* l12 = mklink("l12");
-    root->add_route(h[0], h[1], std::vector<const sg4::Link*>{l01});
-    root->add_route(h[1], h[2], std::vector<const sg4::Link*>{l12});
+    zone->add_route(h[0], h[1], std::vector<const sg4::Link*>{l01});
+    zone->add_route(h[1], h[2], std::vector<const sg4::Link*>{l12});
     if (cp.plat == 3)
-      root->add_route(h[0], h[2], std::vector<const sg4::Link*>{mklink("l02")});
+      zone->add_route(h[0], h[2], std::vector<const sg4::Link*>{mklink("l02")});
     else
-      root->add_route(h[0], h[2], std::vector<const sg4::Link*>{l01, l12});
+      zone->add_route(h[0], h[2], std::vector<const sg4::Link*>{l01, l12});
+    zone->seal();
   }
   root->seal();
   for (size_t c = 0; c < copies.size(); c++) {
     for (int i = 0; i < 3; i++)
       if (copies[c].has[i])
-        sg4::Host::by_name(copies[c].id + ".h" + std::to_string(i))->add_actor(copies[c].id + ".a" + std::to_string(i), run_actor, c, i);
+        chosts[c].at("h" + std::to_string(i))->add_actor(copies[c].id + ".a" + std::to_string(i), run_actor, c, i);
     for (auto const& ft : copies[c].faults)
-      if (ft.method == "api") {
-        std::string res = copies[c].id + "." + ft.res;
-        double date     = ft.date;
-        hi->add_actor("inj." + res, [res, date] {
-          sg4::this_actor::sleep_until(date);
-          if (res[res.size() - 2] == 'h' || res[res.size() - 3] != 'l')
-            sg4::Host::by_name(res)->turn_off();
-          else
-            sg4::Link::by_name(res)->turn_off();
-        });
-      }
+      if (ft.method == "api")
+        api_faults.push_back({ft.date, ft.res[0] == 'h' ? chosts[c].at(ft.res) : nullptr, ft.res[0] == 'l' ? clinks[c].at(ft.res) : nullptr});
   }
+  // ONE injector actor for all the copies (an actor per fault costs a stack each): it sleeps until each date in turn
+  std::stable_sort(api_faults.begin(), api_faults.end(), [](const ApiFault& a, const ApiFault& b) { return a.date < b.date; });
+  if (not api_faults.empty())
+    hi->add_actor("injector", [] {
+      for (auto const& ft : api_faults) {
+        sg4::this_actor::sleep_until(ft.date);
+        if (ft.host)
+          ft.host->turn_off();
+        else
+          ft.link->turn_off();
+      }
+    });
   sg4::Engine::on_deadlock_cb([] { deadlock = true; });
   // who is blocked when the engine gives up: recorded before the engine kills them (their on_exit runs afterwards)
   std::vector<std::pair<size_t, int>> blocked;
